@@ -521,12 +521,24 @@ def showNode (n : Node) : String :=
 
 def showPath (p : List Node) : String := Wire.joinWith ";" (p.map showNode)
 
-/-- `N:<0|1>:<numPos>` or `K:<minLength>:<oovPos>` -/
+/-- `JoinNumericPlugin::set_up`: `self.enable_normalize = settings.enableNormalize.unwrap_or(true)` — the setting as
+it is written in the configuration (`none` = the key is absent) -/
+def enableNormalizeOf (setting : Option Bool) : Bool :=
+  match setting with
+  | some b => b
+  | none => true
+
+/-- `N:<0|1|empty>:<numPos>` (empty = `enableNormalize` is not in the settings) or `K:<minLength>:<oovPos>` -/
 def parsePlugin (s : List Char) : Option Plugin :=
   match Wire.items ':' s with
   | [['N'], en, np] =>
+    if en.isEmpty then
+      match Wire.nat? np with
+      | some np => some (.numeric { numPos := np, enableNormalize := enableNormalizeOf none })
+      | none => none
+    else
     match Wire.nat? en, Wire.nat? np with
-    | some en, some np => some (.numeric { numPos := np, enableNormalize := en != 0 })
+    | some en, some np => some (.numeric { numPos := np, enableNormalize := enableNormalizeOf (some (en != 0)) })
     | _, _ => none
   | [['K'], ml, op] =>
     match Wire.nat? ml, Wire.nat? op with
